@@ -390,6 +390,13 @@ impl<R: Read + io::Seek> ZipArchive<R> {
                     .ok_or({
                         ZipError::InvalidArchive("Invalid central directory size or offset")
                     })?;
+                // The directory lies in front of the ZIP64 end record; an offset behind it would send
+                // `ZipWriter::new_append` (and its unavoidable `finalize`) far past the end of the file.
+                if directory_start > search_upper_bound {
+                    return Err(ZipError::InvalidArchive(
+                        "Invalid central directory size or offset",
+                    ));
+                }
 
                 Ok((
                     archive_offset,
